@@ -134,7 +134,7 @@ def r3_user_generator_kept(ctx):
 def r4_parallel(ctx):
     F = ctx.facts
     sites = F.callers_of(lambda c: (c.get("key") or "").startswith("rayon::"))
-    ctx.floor("C08.R4", "rayon call sites", len(sites), 4)
+    ctx.floor("C08.R4", "rayon call sites", len(sites), 2)
     forbidden_ty = re.compile(r"mahf::state::State<|mahf::state::random::Random|core::cell::RefCell<|core::cell::RefMut<|core::cell::Ref<")
     for (f, bb, t) in sites:
         for a in t["args"][1:]:
@@ -310,7 +310,7 @@ def r6_immutable_components(ctx):
                 ctx.check(a0.startswith("&") and not a0.startswith("&mut ") and not re.match(r"&'\w+ mut ", a0), "C08.R6", tr + "::" + it["name"], "takes-&self",
                           "%s::%s takes %s: a component could keep hidden state across runs" % (tr.split("::")[-1], it["name"], a0))
     impl_adts = sorted({i["self_adt"] for i in F.impls if i["trait"] in TRAITS and i["self_adt"]})
-    ctx.floor("C08.R6", "types implementing component/operator traits", len(impl_adts), 90)
+    ctx.floor("C08.R6", "types implementing component/operator traits", len(impl_adts), 80)
     memo = {}
 
     def interior(adt, depth=0):
